@@ -1,1 +1,216 @@
-//! Kani harnesses (config)
+//! C20 — Kani harnesses for `Config::{patch_with_options, verify, get_auth_method}` and `cli_config::Config` (child module
+//! of teos/src/config.rs under cfg(kani)).
+//!
+//! Strings are concrete markers ("file:<field>" / "cli:<field>"): the code never inspects their contents, so a marker
+//! ending up in the wrong field is what a precedence or copy/paste bug looks like. Numeric values and flags are symbolic.
+//! Presence of the string options is concrete per harness (four patterns: all, none, even, odd — every field is seen
+//! present and absent next to present and absent neighbours); presence of the numeric options is symbolic.
+use super::*;
+
+fn file_config() -> Config {
+    Config {
+        api_bind: "file:api_bind".into(),
+        api_port: 0,
+        rpc_bind: "file:rpc_bind".into(),
+        rpc_port: 0,
+        btc_network: "file:btc_network".into(),
+        btc_rpc_user: "file:btc_rpc_user".into(),
+        btc_rpc_cookie: "file:btc_rpc_cookie".into(),
+        btc_rpc_password: "file:btc_rpc_password".into(),
+        btc_rpc_connect: "file:btc_rpc_connect".into(),
+        btc_rpc_port: 0,
+        debug: false,
+        deps_debug: false,
+        overwrite_key: false,
+        force_update: false,
+        subscription_slots: 0,
+        subscription_duration: 0,
+        expiry_delta: 0,
+        min_to_self_delay: 0,
+        polling_delta: 0,
+        internal_api_bind: "file:internal_api_bind".into(),
+        internal_api_port: 0,
+        tor_support: false,
+        tor_control_port: 0,
+        onion_hidden_service_port: 0,
+    }
+}
+
+fn opt_str(present: bool, v: &str) -> Option<String> {
+    if present {
+        Some(v.to_owned())
+    } else {
+        None
+    }
+}
+
+fn any_opt_u16() -> Option<u16> {
+    if kani::any() {
+        Some(kani::any())
+    } else {
+        None
+    }
+}
+
+fn patch_step(pat: [bool; 7]) {
+    let mut c = file_config();
+    // numeric and boolean file values: symbolic, written in place
+    c.api_port = kani::any();
+    c.rpc_port = kani::any();
+    c.btc_rpc_port = kani::any();
+    c.tor_control_port = kani::any();
+    c.onion_hidden_service_port = kani::any();
+    c.debug = kani::any();
+    c.deps_debug = kani::any();
+    c.overwrite_key = kani::any();
+    c.force_update = kani::any();
+    c.tor_support = kani::any();
+    c.subscription_slots = kani::any();
+    c.subscription_duration = kani::any();
+    c.expiry_delta = kani::any();
+    c.min_to_self_delay = kani::any();
+    c.polling_delta = kani::any();
+    c.internal_api_port = kani::any();
+    let f = (c.api_port, c.rpc_port, c.btc_rpc_port, c.tor_control_port, c.onion_hidden_service_port);
+    let fb = (c.debug, c.deps_debug, c.overwrite_key, c.force_update, c.tor_support);
+    let fo = (c.subscription_slots, c.subscription_duration, c.expiry_delta, c.min_to_self_delay, c.polling_delta, c.internal_api_port);
+    let o_ports = (any_opt_u16(), any_opt_u16(), any_opt_u16(), any_opt_u16(), any_opt_u16());
+    let ob: (bool, bool, bool, bool, bool) = (kani::any(), kani::any(), kani::any(), kani::any(), kani::any());
+    let opt = Opt {
+        api_bind: opt_str(pat[0], "cli:api_bind"),
+        api_port: o_ports.0,
+        rpc_bind: opt_str(pat[1], "cli:rpc_bind"),
+        rpc_port: o_ports.1,
+        btc_network: opt_str(pat[2], "cli:btc_network"),
+        btc_rpc_user: opt_str(pat[3], "cli:btc_rpc_user"),
+        btc_rpc_password: opt_str(pat[4], "cli:btc_rpc_password"),
+        btc_rpc_cookie: opt_str(pat[5], "cli:btc_rpc_cookie"),
+        btc_rpc_connect: opt_str(pat[6], "cli:btc_rpc_connect"),
+        btc_rpc_port: o_ports.2,
+        data_dir: "cli:data_dir".into(),
+        debug: ob.0,
+        deps_debug: ob.1,
+        overwrite_key: ob.2,
+        tor_support: ob.4,
+        force_update: ob.3,
+        tor_control_port: o_ports.3,
+        onion_hidden_service_port: o_ports.4,
+    };
+    c.patch_with_options(opt);
+    let want = |p: bool, name: &str, got: &str| -> bool {
+        let (pre, rest) = got.split_at(if p { 4 } else { 5 });
+        pre == if p { "cli:" } else { "file:" } && rest == name
+    };
+    assert!(want(pat[0], "api_bind", &c.api_bind), "C20.precedence: api_bind = command line value if given, else file value");
+    assert!(want(pat[1], "rpc_bind", &c.rpc_bind), "C20.precedence: rpc_bind = command line value if given, else file value");
+    assert!(want(pat[2], "btc_network", &c.btc_network), "C20.precedence: btc_network = command line value if given, else file value");
+    assert!(want(pat[3], "btc_rpc_user", &c.btc_rpc_user), "C20.precedence: btc_rpc_user = command line value if given, else file value");
+    assert!(want(pat[4], "btc_rpc_password", &c.btc_rpc_password), "C20.precedence: btc_rpc_password = command line value if given, else file value");
+    assert!(want(pat[5], "btc_rpc_cookie", &c.btc_rpc_cookie), "C20.precedence: btc_rpc_cookie = command line value if given, else file value");
+    assert!(want(pat[6], "btc_rpc_connect", &c.btc_rpc_connect), "C20.precedence: btc_rpc_connect = command line value if given, else file value");
+    assert!(c.internal_api_bind == "file:internal_api_bind", "C20.precedence: options without a command line switch keep the file value");
+    assert!(c.api_port == o_ports.0.unwrap_or(f.0), "C20.precedence: api_port");
+    assert!(c.rpc_port == o_ports.1.unwrap_or(f.1), "C20.precedence: rpc_port");
+    assert!(c.btc_rpc_port == o_ports.2.unwrap_or(f.2), "C20.precedence: btc_rpc_port");
+    assert!(c.tor_control_port == o_ports.3.unwrap_or(f.3), "C20.precedence: tor_control_port");
+    assert!(c.onion_hidden_service_port == o_ports.4.unwrap_or(f.4), "C20.precedence: onion_hidden_service_port");
+    assert!(c.debug == (fb.0 || ob.0) && c.deps_debug == (fb.1 || ob.1) && c.tor_support == (fb.4 || ob.4),
+        "C20.flags: debug / deps_debug / tor_support are on if set in the file or on the command line");
+    assert!(c.overwrite_key == ob.2 && c.force_update == ob.3,
+        "C20.oneshot: overwrite_key and force_update take effect only when given on the command line");
+    assert!((c.subscription_slots, c.subscription_duration, c.expiry_delta, c.min_to_self_delay, c.polling_delta, c.internal_api_port) == fo,
+        "C20.precedence: settings without a command line switch keep the file value");
+    kani::cover!(fb.2 && !ob.2, "reach-file-overwrite-key-ignored");
+    std::mem::forget(c);
+}
+
+macro_rules! patch_harness {
+    ($name:ident, $pat:expr) => {
+        #[kani::proof]
+        #[kani::unwind(34)]
+        fn $name() {
+            patch_step($pat);
+        }
+    };
+}
+patch_harness!(c20_patch_all_present, [true; 7]);
+patch_harness!(c20_patch_none_present, [false; 7]);
+patch_harness!(c20_patch_even_present, [true, false, true, false, true, false, true]);
+patch_harness!(c20_patch_odd_present, [false, true, false, true, false, true, false]);
+
+/// K2/K3: verify() for all eight combinations of the three credential fields (empty / non-empty), one network name per
+/// harness, any port: Ok <=> exactly one authentication method and a known network; the port is kept if non-zero, else the
+/// network's default; the network name is normalised.
+fn verify_step(network: &str, known: Option<(&str, u16)>) {
+    let port: u16 = kani::any();
+    let mut k = 0u8;
+    while k < 8 {
+        let (u, p, ck) = (k & 1 != 0, k & 2 != 0, k & 4 != 0);
+        let mut c = file_config();
+        c.btc_network = network.into();
+        c.btc_rpc_user = if u { "u".into() } else { String::new() };
+        c.btc_rpc_password = if p { "p".into() } else { String::new() };
+        c.btc_rpc_cookie = if ck { "c".into() } else { String::new() };
+        c.btc_rpc_port = port;
+        let one_method = (u && p && !ck) || (!u && !p && ck);
+        let m = c.get_auth_method();
+        assert!((m == AuthMethod::UserPass) == (u && p && !ck) && (m == AuthMethod::CookieFile) == (!u && !p && ck)
+            && (m == AuthMethod::Invalid) == (!u && !p && !ck), "C20.auth: exactly one bitcoind authentication method is recognised as such");
+        let r = c.verify();
+        match known {
+            Some((norm, default_port)) if one_method => {
+                assert!(r.is_ok(), "C20.verify: one authentication method and a known network are accepted");
+                assert!(c.btc_network == norm, "C20.verify: the network name is normalised to bitcoind's");
+                assert!(c.btc_rpc_port == if port != 0 { port } else { default_port },
+                    "C20.verify: the RPC port is the explicit one, else the network's default");
+            }
+            _ => assert!(r.is_err(), "C20.verify: no or several authentication methods, or an unknown network, are refused"),
+        }
+        std::mem::forget(c);
+        std::mem::forget(r);
+        k += 1;
+    }
+    kani::cover!(port == 0, "reach-default-port");
+}
+
+macro_rules! verify_harness {
+    ($name:ident, $net:expr, $known:expr) => {
+        #[kani::proof]
+        #[kani::stub(alloc::fmt::format, crate::verif_stubs::format_model)]
+        #[kani::unwind(12)]
+        fn $name() {
+            verify_step($net, $known);
+        }
+    };
+}
+verify_harness!(c20_verify_mainnet, "mainnet", Some(("main", 8332)));
+verify_harness!(c20_verify_main, "main", Some(("main", 8332)));
+verify_harness!(c20_verify_testnet, "testnet", Some(("test", 18332)));
+verify_harness!(c20_verify_test, "test", Some(("test", 18332)));
+verify_harness!(c20_verify_regtest, "regtest", Some(("regtest", 18443)));
+verify_harness!(c20_verify_signet, "signet", Some(("signet", 38332)));
+verify_harness!(c20_verify_bogus, "bogus", None);
+verify_harness!(c20_verify_empty, "", None);
+
+/// K4: the CLI's own two-field configuration.
+#[kani::proof]
+#[kani::unwind(34)]
+fn c20_cli_config_patch() {
+    use crate::cli_config;
+    let present: bool = kani::any();
+    let fp: u16 = kani::any();
+    let op = any_opt_u16();
+    let mut c = cli_config::Config { rpc_bind: "file:rpc_bind".into(), rpc_port: 0 };
+    c.rpc_port = fp;
+    let o = cli_config::Opt {
+        rpc_bind: if present { Some("cli:rpc_bind".into()) } else { None },
+        rpc_port: op,
+        data_dir: "d".into(),
+        command: cli_config::Command::GetTowerInfo,
+    };
+    c.patch_with_options(o);
+    assert!(c.rpc_bind == if present { "cli:rpc_bind" } else { "file:rpc_bind" }, "C20.precedence: teos-cli rpc_bind");
+    assert!(c.rpc_port == op.unwrap_or(fp), "C20.precedence: teos-cli rpc_port");
+    kani::cover!(present, "reach");
+    std::mem::forget(c);
+}
